@@ -335,6 +335,169 @@ func runC15(c *Ctx) {
 		c.add(fmt.Sprintf("K15Ops [%s] %s", strings.Join(ops, "; "), coqBytes(out)), "reset mid-document then "+trunc(t.coqTree(), 200), "reset-mid/"+t.kind, true)
 		c.count("reset_mid_document")
 	}
+	runC15Histories(c, vg)
+}
+
+// cutOut forwards the first `left` calls only: a document abandoned part-way
+type cutOut struct {
+	o    *plenccodec.JSONOutput
+	left int
+}
+
+func (c *cutOut) ok() bool {
+	if c.left <= 0 {
+		return false
+	}
+	c.left--
+	return true
+}
+func (c *cutOut) StartObject() {
+	if c.ok() {
+		c.o.StartObject()
+	}
+}
+func (c *cutOut) EndObject() {
+	if c.ok() {
+		c.o.EndObject()
+	}
+}
+func (c *cutOut) StartArray() {
+	if c.ok() {
+		c.o.StartArray()
+	}
+}
+func (c *cutOut) EndArray() {
+	if c.ok() {
+		c.o.EndArray()
+	}
+}
+func (c *cutOut) NameField(name string) {
+	if c.ok() {
+		c.o.NameField(name)
+	}
+}
+func (c *cutOut) Int64(v int64) {
+	if c.ok() {
+		c.o.Int64(v)
+	}
+}
+func (c *cutOut) Uint64(v uint64) {
+	if c.ok() {
+		c.o.Uint64(v)
+	}
+}
+func (c *cutOut) Float64(v float64) {
+	if c.ok() {
+		c.o.Float64(v)
+	}
+}
+func (c *cutOut) Float32(v float32) {
+	if c.ok() {
+		c.o.Float32(v)
+	}
+}
+func (c *cutOut) String(v string) {
+	if c.ok() {
+		c.o.String(v)
+	}
+}
+func (c *cutOut) Bool(v bool) {
+	if c.ok() {
+		c.o.Bool(v)
+	}
+}
+func (c *cutOut) Time(t time.Time) {
+	if c.ok() {
+		c.o.Time(t)
+	}
+}
+func (c *cutOut) Raw(v string) {
+	if c.ok() {
+		c.o.Raw(v)
+	}
+}
+
+// runC15Histories: after Reset the outputter behaves like a new one, whatever it was
+// in the middle of. Earlier documents (complete, or abandoned after any number of
+// calls) are followed by Reset and a document that is checked on its own; the later
+// documents put empty and non-empty containers at every small byte offset, so that
+// any offset, depth, flag or stack entry remembered from before the Reset shows.
+func runC15Histories(c *Ctx, vg *ValGen) {
+	name := func(k int) string { return strings.Repeat("n", k) }
+	leafs := []*jnode{{kind: "arr"}, {kind: "obj"}, {kind: "int", i: 7}, {kind: "arr", kids: []*jnode{{kind: "arr"}}}, {kind: "obj", kids: []*jnode{{kind: "obj"}}, names: []string{""}}}
+	var seconds []*jnode
+	for k := 0; k <= 14; k++ {
+		for _, leaf := range leafs {
+			seconds = append(seconds, &jnode{kind: "obj", kids: []*jnode{leaf}, names: []string{name(k)}})
+			seconds = append(seconds, &jnode{kind: "arr", kids: []*jnode{{kind: "str", s: name(k)}, leaf}})
+		}
+	}
+	seconds = append(seconds, leafs...)
+	var firsts []*jnode
+	for k := 0; k <= 6; k++ {
+		firsts = append(firsts,
+			&jnode{kind: "obj", kids: []*jnode{{kind: "int", i: 1}, {kind: "int", i: 2}}, names: []string{name(k), "b"}},
+			&jnode{kind: "arr", kids: []*jnode{{kind: "str", s: name(k)}, {kind: "int", i: 2}, {kind: "arr"}}},
+			&jnode{kind: "obj", kids: []*jnode{{kind: "arr", kids: []*jnode{{kind: "int", i: 1}, {kind: "int", i: 2}}}}, names: []string{name(k)}})
+	}
+	run := func(history []*jnode, cuts []int, last *jnode, class string) {
+		var o plenccodec.JSONOutput
+		var ops []string
+		for i, d := range history {
+			var dops []string
+			d.coqOps(&dops)
+			cut := cuts[i]
+			if cut > len(dops) {
+				cut = len(dops)
+			}
+			d.emit(&cutOut{o: &o, left: cut})
+			ops = append(ops, dops[:cut]...)
+			o.Reset()
+			ops = append(ops, "OReset")
+		}
+		last.emit(&o)
+		last.coqOps(&ops)
+		out := append([]byte{}, o.Done()...)
+		var fresh plenccodec.JSONOutput
+		last.emit(&fresh)
+		want := fresh.Done()
+		desc := fmt.Sprintf("reset history %d earlier document(s) (cuts %v) then %s -> %q", len(history), cuts, trunc(last.coqTree(), 200), trunc(string(out), 200))
+		if !bytes.Equal(out, want) {
+			c.native = append(c.native, NativeViolation{Case: desc, Class: "reset-not-like-new",
+				What: fmt.Sprintf("after Reset the outputter wrote %q where a new one writes %q", trunc(string(out), 300), trunc(string(want), 300))})
+		}
+		c.add(fmt.Sprintf("K15Ops [%s] %s", strings.Join(ops, "; "), coqBytes(out)), desc, class, true)
+		c.count("reset_histories")
+	}
+	// every (earlier document, later document) pair of the systematic families
+	for _, f := range firsts {
+		for _, s := range seconds {
+			if c.Tier != "thorough" && c.rng.Chance(60) {
+				continue
+			}
+			run([]*jnode{f}, []int{1 << 20}, s, "reset-history/systematic")
+		}
+	}
+	// random histories: one to three earlier documents, each complete or abandoned
+	for i := 0; i < scale(c, 300, 6000); i++ {
+		var hist []*jnode
+		var cuts []int
+		for k := 1 + c.rng.Intn(3); k > 0; k-- {
+			hist = append(hist, genJNode(c.rng, vg, 1+c.rng.Intn(3)))
+			if c.rng.Bool() {
+				cuts = append(cuts, 1<<20)
+			} else {
+				cuts = append(cuts, c.rng.Intn(8))
+			}
+		}
+		var last *jnode
+		if c.rng.Bool() {
+			last = seconds[c.rng.Intn(len(seconds))]
+		} else {
+			last = genJNode(c.rng, vg, 1+c.rng.Intn(3))
+		}
+		run(hist, cuts, last, "reset-history/random")
+	}
 }
 
 func jdepth(n *jnode) int {
